@@ -1002,6 +1002,13 @@ func (c *c08Run) runBatchInv(m *c08Module, pkgs []*c08Pkg, tag string, depth int
 					c.judged(p, v)
 					continue
 				}
+				if strings.Contains(iv.res.Stderr, "imported from a path that ends in") || strings.Contains(iv.res.Stderr, "does not map to a Coq identifier") {
+					// (since fix fabb596) an import whose package name differs from the last element of its path, or
+					// whose path has an element that is no Coq identifier, is refused: the Require line could not name
+					// what the body says. A refusal is a legitimate outcome, not a missing observation.
+					r.Count("packages_refused_for_import_name_or_path", 1)
+					continue
+				}
 				// the generated package itself did not translate: says nothing about headers
 				r.Inconclusive("generated-package-did-not-translate")
 				r.Set("untranslated_example", map[string]interface{}{"package": p.importPath, "command": iv.cmdline(), "stderr": clip(iv.res.Stderr, 1500)})
